@@ -32,6 +32,9 @@ def run_rules(prop: str, ctx: Ctx, raise_on_error: bool = True) -> list[RuleRepo
             # one rule that cannot decide must not hide what the other rules of the property found
             errors.append(f"{rule.__name__}: {exc}")
             continue
+        except Exception as exc:  # analyser bug on this tree: fail closed for this rule, keep the others' findings
+            errors.append(f"{rule.__name__}: internal error {type(exc).__name__}: {exc}")
+            continue
         if isinstance(rep, list):
             reports.extend(rep)
         else:
@@ -159,8 +162,8 @@ def main(argv=None) -> int:
                   f"inapplicable={len(st['inapplicable'])}")
             if st["missed"] or st["noisy"]:
                 selftest_error = f"self-test failed: missed mutants {st['missed']}, noisy twins {st['noisy']}"
-        except AnalysisError as exc:
-            selftest_error = f"self-test could not run: {exc}"
+        except Exception as exc:
+            selftest_error = f"self-test could not run: {type(exc).__name__}: {exc}"
 
     rc = 0
     if new:
